@@ -693,7 +693,7 @@ func (w *Worker) authFile(st *Stim) {
 				same = false
 			}
 		}
-		if same || time.Since(t0) > 3*time.Second {
+		if same || time.Since(t0) > 10*time.Second {
 			break
 		}
 		time.Sleep(5 * time.Millisecond)
